@@ -2,7 +2,14 @@ package rules
 
 import (
 	"fmt"
+	"go/types"
 	"sort"
+	"strings"
+
+	"golang.org/x/tools/go/ssa"
+
+	"pv/internal/own"
+	"pv/internal/ssax"
 
 	"pv/internal/report"
 	"pv/internal/shift"
@@ -74,10 +81,78 @@ func runC12(c *Ctx) {
 			c.R.Hold(ra, "derived: "+k, fmt.Sprintf("coefficient %d", got))
 		}
 	}
+	c.ruleSetOffsetUnconditional("R12d set-offset-takes-effect")
+	c.ruleRenderPure("R12e rendering-is-history-free")
 	for _, e := range res.Exempt {
 		c.R.Exempt("tabled", e)
 	}
 	c.R.Extra["position_types"] = res.PosTypes
 	c.R.Extra["field_coefficients"] = res.Facts
 	c.R.Extra["undetermined_sample"] = res.Unknown
+}
+
+// ruleSetOffsetUnconditional: every implementation of parsley.File.SetOffset stores its argument on every path.
+func (c *Ctx) ruleSetOffsetUnconditional(rule string) {
+	c.R.Rule(rule, "File.SetOffset stores its argument into the offset field unconditionally", 1)
+	fi := c.lookupIface("parsley", "File")
+	for _, fn := range c.P.LibFuncs {
+		if fn.Synthetic != "" || fn.Name() != "SetOffset" || fn.Signature.Recv() == nil || fi == nil || !types.Implements(fn.Signature.Recv().Type(), fi) || len(fn.Params) != 2 {
+			continue
+		}
+		var st *ssa.Store
+		for _, b := range fn.Blocks {
+			for _, in := range b.Instrs {
+				if s, ok := in.(*ssa.Store); ok && s.Val == ssa.Value(fn.Params[1]) {
+					if _, isF := s.Addr.(*ssa.FieldAddr); isF {
+						st = s
+					}
+				}
+			}
+		}
+		ok := st != nil
+		if ok {
+			for _, r := range ssax.Returns(fn) {
+				if !(st.Block() == r.Block() || st.Block().Dominates(r.Block())) {
+					ok = false
+				}
+			}
+		}
+		if ok {
+			c.R.Hold(rule, c.name(fn), "the offset is stored on every path")
+		} else {
+			c.R.Violation(rule, c.name(fn)+" conditional", c.name(fn), c.P.Pos(fn.Pos()), "SetOffset does not store the new base offset on every path: a file added to a (second) file set keeps emitting positions of its old placement, which the set cannot map back")
+		}
+	}
+}
+
+// ruleRenderPure: translating a position to file:line:column writes nothing but the lazily built line table, so
+// the rendering of a position does not depend on which positions were rendered before.
+func (c *Ctx) ruleRenderPure(rule string) {
+	c.R.Rule(rule, "FileSet.Position / ErrorWithPosition / File.Position write no memory except the file's lazily built line table", 2)
+	m := c.model()
+	a := c.Own()
+	for _, n := range []string{"(*parsley.FileSet).Position", "(*parsley.FileSet).ErrorWithPosition", "(*text.File).Position"} {
+		fn := c.P.Func(n)
+		if fn == nil {
+			c.R.Fail("coverage-lost", rule, n, "-", "-", n+" not found")
+			continue
+		}
+		bad := 0
+		for _, e := range a.Info[fn].SortedEffects() {
+			if e.Root.K == own.RFresh {
+				continue
+			}
+			if m.ok && (e.Field == m.Lines || strings.HasSuffix(e.Path, "."+m.Lines+"[]") || strings.HasSuffix(e.Path, "."+m.Lines)) {
+				continue // the line table, built once under lines == nil (W0)
+			}
+			bad++
+			if bad > 2 {
+				continue
+			}
+			c.R.Violation(rule, n+" writes "+e.Path, n, c.P.InstrPos(e.Instr), "rendering a position writes "+a.Describe(e)+": what a later position renders to then depends on the lookup history (and concurrent renderings race)")
+		}
+		if bad == 0 {
+			c.R.Hold(rule, n, "no effect besides the line table")
+		}
+	}
 }
